@@ -42,7 +42,13 @@ func c18e5() { c18rec(5) }
 func c18e6() { c18rec(6) }
 func c18e7() { c18rec(7) }
 
-var c18ev = []func(){c18e0, c18e1, c18e2, c18e3, c18e4, c18e5, c18e6, c18e7}
+// The pool is built afresh for every use: the odd entries are method values, and a method value is a new function value each time
+// the expression is evaluated (what a user writes as OnX(obj.handle) ... OffX(obj.handle)); the even ones are top-level functions.
+func c18evF() []func() {
+	return []func(){c18e0, c18m.e1, c18e2, c18m.e3, c18e4, c18m.e5, c18e6, c18m.e7}
+}
+
+var c18ev = c18evF()
 
 func c18c0(sio.ServerSocket) { c18rec(0) }
 func c18c1(sio.ServerSocket) { c18rec(1) }
@@ -53,7 +59,13 @@ func c18c5(sio.ServerSocket) { c18rec(5) }
 func c18c6(sio.ServerSocket) { c18rec(6) }
 func c18c7(sio.ServerSocket) { c18rec(7) }
 
-var c18conn = []func(sio.ServerSocket){c18c0, c18c1, c18c2, c18c3, c18c4, c18c5, c18c6, c18c7}
+// The pool is built afresh for every use: the odd entries are method values, and a method value is a new function value each time
+// the expression is evaluated (what a user writes as OnX(obj.handle) ... OffX(obj.handle)); the even ones are top-level functions.
+func c18connF() []func(sio.ServerSocket) {
+	return []func(sio.ServerSocket){c18c0, c18m.c1, c18c2, c18m.c3, c18c4, c18m.c5, c18c6, c18m.c7}
+}
+
+var c18conn = c18connF()
 
 func c18a0(string, sio.ServerSocket) { c18rec(0) }
 func c18a1(string, sio.ServerSocket) { c18rec(1) }
@@ -64,7 +76,13 @@ func c18a5(string, sio.ServerSocket) { c18rec(5) }
 func c18a6(string, sio.ServerSocket) { c18rec(6) }
 func c18a7(string, sio.ServerSocket) { c18rec(7) }
 
-var c18any = []func(string, sio.ServerSocket){c18a0, c18a1, c18a2, c18a3, c18a4, c18a5, c18a6, c18a7}
+// The pool is built afresh for every use: the odd entries are method values, and a method value is a new function value each time
+// the expression is evaluated (what a user writes as OnX(obj.handle) ... OffX(obj.handle)); the even ones are top-level functions.
+func c18anyF() []func(string, sio.ServerSocket) {
+	return []func(string, sio.ServerSocket){c18a0, c18m.a1, c18a2, c18m.a3, c18a4, c18m.a5, c18a6, c18m.a7}
+}
+
+var c18any = c18anyF()
 
 func c18d0(sio.Reason) { c18rec(0) }
 func c18d1(sio.Reason) { c18rec(1) }
@@ -75,7 +93,13 @@ func c18d5(sio.Reason) { c18rec(5) }
 func c18d6(sio.Reason) { c18rec(6) }
 func c18d7(sio.Reason) { c18rec(7) }
 
-var c18disc = []func(sio.Reason){c18d0, c18d1, c18d2, c18d3, c18d4, c18d5, c18d6, c18d7}
+// The pool is built afresh for every use: the odd entries are method values, and a method value is a new function value each time
+// the expression is evaluated (what a user writes as OnX(obj.handle) ... OffX(obj.handle)); the even ones are top-level functions.
+func c18discF() []func(sio.Reason) {
+	return []func(sio.Reason){c18d0, c18m.d1, c18d2, c18m.d3, c18d4, c18m.d5, c18d6, c18m.d7}
+}
+
+var c18disc = c18discF()
 
 func c18o0(sio.Reason, error) { c18rec(0) }
 func c18o1(sio.Reason, error) { c18rec(1) }
@@ -86,7 +110,39 @@ func c18o5(sio.Reason, error) { c18rec(5) }
 func c18o6(sio.Reason, error) { c18rec(6) }
 func c18o7(sio.Reason, error) { c18rec(7) }
 
-var c18mclose = []func(sio.Reason, error){c18o0, c18o1, c18o2, c18o3, c18o4, c18o5, c18o6, c18o7}
+// The pool is built afresh for every use: the odd entries are method values, and a method value is a new function value each time
+// the expression is evaluated (what a user writes as OnX(obj.handle) ... OffX(obj.handle)); the even ones are top-level functions.
+func c18mcloseF() []func(sio.Reason, error) {
+	return []func(sio.Reason, error){c18o0, c18m.o1, c18o2, c18m.o3, c18o4, c18m.o5, c18o6, c18m.o7}
+}
+
+var c18mclose = c18mcloseF()
+
+// c18M carries the method-value handlers; one method per handler index (functions are identified by their code).
+type c18M struct{}
+
+var c18m = &c18M{}
+
+func (*c18M) e1()                         { c18rec(1) }
+func (*c18M) e3()                         { c18rec(3) }
+func (*c18M) e5()                         { c18rec(5) }
+func (*c18M) e7()                         { c18rec(7) }
+func (*c18M) c1(sio.ServerSocket)         { c18rec(1) }
+func (*c18M) c3(sio.ServerSocket)         { c18rec(3) }
+func (*c18M) c5(sio.ServerSocket)         { c18rec(5) }
+func (*c18M) c7(sio.ServerSocket)         { c18rec(7) }
+func (*c18M) a1(string, sio.ServerSocket) { c18rec(1) }
+func (*c18M) a3(string, sio.ServerSocket) { c18rec(3) }
+func (*c18M) a5(string, sio.ServerSocket) { c18rec(5) }
+func (*c18M) a7(string, sio.ServerSocket) { c18rec(7) }
+func (*c18M) d1(sio.Reason)               { c18rec(1) }
+func (*c18M) d3(sio.Reason)               { c18rec(3) }
+func (*c18M) d5(sio.Reason)               { c18rec(5) }
+func (*c18M) d7(sio.Reason)               { c18rec(7) }
+func (*c18M) o1(sio.Reason, error)        { c18rec(1) }
+func (*c18M) o3(sio.Reason, error)        { c18rec(3) }
+func (*c18M) o5(sio.Reason, error)        { c18rec(5) }
+func (*c18M) o7(sio.Reason, error)        { c18rec(7) }
 
 // ---- case and model ----------------------------------------------------------------------------------------------
 
@@ -249,9 +305,9 @@ func buildC18(r *rig, kind string) (*c18Reg, string) {
 			return nil, "client did not connect"
 		}
 		return &c18Reg{events: []string{"a", "b"},
-			on:     func(ev string, h int) { ss.OnEvent(ev, c18ev[h]) },
-			once:   func(ev string, h int) { ss.OnceEvent(ev, c18ev[h]) },
-			off:    func(ev string, hs []int) { ss.OffEvent(ev, anys(pick(c18ev, hs))...) },
+			on:     func(ev string, h int) { ss.OnEvent(ev, c18evF()[h]) },
+			once:   func(ev string, h int) { ss.OnceEvent(ev, c18evF()[h]) },
+			off:    func(ev string, hs []int) { ss.OffEvent(ev, anys(pick(c18evF(), hs))...) },
 			offAll: func() { ss.OffAll() },
 			fire:   func(ev string) { cli.Emit(ev) },
 			occur: func(ev string, k int) int {
@@ -270,9 +326,9 @@ func buildC18(r *rig, kind string) (*c18Reg, string) {
 			return nil, "client did not connect"
 		}
 		return &c18Reg{events: []string{"a", "b"},
-			on:     func(ev string, h int) { cli.OnEvent(ev, c18ev[h]) },
-			once:   func(ev string, h int) { cli.OnceEvent(ev, c18ev[h]) },
-			off:    func(ev string, hs []int) { cli.OffEvent(ev, anys(pick(c18ev, hs))...) },
+			on:     func(ev string, h int) { cli.OnEvent(ev, c18evF()[h]) },
+			once:   func(ev string, h int) { cli.OnceEvent(ev, c18evF()[h]) },
+			off:    func(ev string, hs []int) { cli.OffEvent(ev, anys(pick(c18evF(), hs))...) },
 			offAll: func() { cli.OffAll() },
 			fire:   func(ev string) { ss.Emit(ev) },
 			occur: func(ev string, k int) int {
@@ -287,9 +343,9 @@ func buildC18(r *rig, kind string) (*c18Reg, string) {
 		// adapter through the exported Namespace.OnServerSideEmit (the in-memory adapter has no peers, so the harness plays that part).
 		nsp := r.Server.Of("/")
 		return &c18Reg{events: c18Events[kind],
-			on:     func(ev string, h int) { nsp.OnEvent(ev, c18ev[h]) },
-			once:   func(ev string, h int) { nsp.OnceEvent(ev, c18ev[h]) },
-			off:    func(ev string, hs []int) { nsp.OffEvent(ev, anys(pick(c18ev, hs))...) },
+			on:     func(ev string, h int) { nsp.OnEvent(ev, c18evF()[h]) },
+			once:   func(ev string, h int) { nsp.OnceEvent(ev, c18evF()[h]) },
+			off:    func(ev string, hs []int) { nsp.OffEvent(ev, anys(pick(c18evF(), hs))...) },
 			offAll: func() { nsp.OffAll() },
 			fire:   func(ev string) { nsp.OnServerSideEmit(ev) },
 			occur: func(ev string, k int) int {
@@ -303,12 +359,12 @@ func buildC18(r *rig, kind string) (*c18Reg, string) {
 		nsp := r.Server.Of("/")
 		return &c18Reg{events: []string{"connection"},
 			fire: func(ev string) { r.manager([]string{"websocket"}, nil).Socket("/", nil).Connect() },
-			on:   func(ev string, h int) { nsp.OnConnection(c18conn[h]) },
-			once: func(ev string, h int) { nsp.OnceConnection(c18conn[h]) },
+			on:   func(ev string, h int) { nsp.OnConnection(c18connF()[h]) },
+			once: func(ev string, h int) { nsp.OnceConnection(c18connF()[h]) },
 			off: func(ev string, hs []int) {
 				fs := make([]sio.NamespaceConnectionFunc, len(hs))
 				for i, h := range hs {
-					fs[i] = c18conn[h]
+					fs[i] = c18connF()[h]
 				}
 				nsp.OffConnection(fs...)
 			},
@@ -326,12 +382,12 @@ func buildC18(r *rig, kind string) (*c18Reg, string) {
 	case "server-any-connection":
 		return &c18Reg{events: []string{"connection"},
 			fire: func(ev string) { r.manager([]string{"websocket"}, nil).Socket("/", nil).Connect() },
-			on:   func(ev string, h int) { r.Server.OnAnyConnection(c18any[h]) },
-			once: func(ev string, h int) { r.Server.OnceAnyConnection(c18any[h]) },
+			on:   func(ev string, h int) { r.Server.OnAnyConnection(c18anyF()[h]) },
+			once: func(ev string, h int) { r.Server.OnceAnyConnection(c18anyF()[h]) },
 			off: func(ev string, hs []int) {
 				fs := make([]sio.ServerAnyConnectionFunc, len(hs))
 				for i, h := range hs {
-					fs[i] = c18any[h]
+					fs[i] = c18anyF()[h]
 				}
 				r.Server.OffAnyConnection(fs...)
 			},
@@ -352,29 +408,29 @@ func buildC18(r *rig, kind string) (*c18Reg, string) {
 		return &c18Reg{events: []string{"connect", "disconnect"},
 			on: func(ev string, h int) {
 				if ev == "connect" {
-					cli.OnConnect(c18ev[h])
+					cli.OnConnect(c18evF()[h])
 				} else {
-					cli.OnDisconnect(c18disc[h])
+					cli.OnDisconnect(c18discF()[h])
 				}
 			},
 			once: func(ev string, h int) {
 				if ev == "connect" {
-					cli.OnceConnect(c18ev[h])
+					cli.OnceConnect(c18evF()[h])
 				} else {
-					cli.OnceDisconnect(c18disc[h])
+					cli.OnceDisconnect(c18discF()[h])
 				}
 			},
 			off: func(ev string, hs []int) {
 				if ev == "connect" {
 					fs := make([]sio.ClientSocketConnectFunc, len(hs))
 					for i, h := range hs {
-						fs[i] = c18ev[h]
+						fs[i] = c18evF()[h]
 					}
 					cli.OffConnect(fs...)
 				} else {
 					fs := make([]sio.ClientSocketDisconnectFunc, len(hs))
 					for i, h := range hs {
-						fs[i] = c18disc[h]
+						fs[i] = c18discF()[h]
 					}
 					cli.OffDisconnect(fs...)
 				}
@@ -403,12 +459,12 @@ func buildC18(r *rig, kind string) (*c18Reg, string) {
 		m := r.manager([]string{"websocket"}, nil)
 		cli := m.Socket("/", nil)
 		return &c18Reg{events: []string{"close"},
-			on:   func(ev string, h int) { m.OnClose(c18mclose[h]) },
-			once: func(ev string, h int) { m.OnceClose(c18mclose[h]) },
+			on:   func(ev string, h int) { m.OnClose(c18mcloseF()[h]) },
+			once: func(ev string, h int) { m.OnceClose(c18mcloseF()[h]) },
 			off: func(ev string, hs []int) {
 				fs := make([]sio.ManagerCloseFunc, len(hs))
 				for i, h := range hs {
-					fs[i] = c18mclose[h]
+					fs[i] = c18mcloseF()[h]
 				}
 				m.OffClose(fs...)
 			},
@@ -712,13 +768,13 @@ func evalC18Burst(c c18BurstCase) *Failure {
 		}
 		ons := max(c.Ons, 1)
 		for i := 0; i < ons; i++ {
-			reg.OnEvent("x", c18ev[7]) // the same handler registered several times runs that many times per occurrence
+			reg.OnEvent("x", c18evF()[7]) // the same handler registered several times runs that many times per occurrence
 		}
 		c18take()
 		for b := 0; b < c.Bursts && res == nil; b++ {
 			tick()
 			for o := 0; o < c.Onces; o++ {
-				reg.OnceEvent("x", c18ev[o])
+				reg.OnceEvent("x", c18evF()[o])
 			}
 			var wg sync.WaitGroup
 			// registrations made while the occurrences are being dispatched
@@ -728,10 +784,10 @@ func evalC18Burst(c c18BurstCase) *Failure {
 				go func() {
 					defer wg.Done()
 					for o := 0; o < c.MidOnces; o++ {
-						reg.OnceEvent("x", c18ev[4+o])
+						reg.OnceEvent("x", c18evF()[4+o])
 					}
 					if midOn {
-						reg.OnEvent("x", c18ev[7])
+						reg.OnEvent("x", c18evF()[7])
 					}
 				}()
 			}
@@ -760,7 +816,7 @@ func evalC18Burst(c c18BurstCase) *Failure {
 				if counts[4+o] > 1 {
 					res = fail("once-at-most-once", fmt.Sprintf("burst %d: the Once handler h%d, registered while %d occurrences were being dispatched, ran %d times (ran %v)", b, 4+o, c.K, counts[4+o], ran))
 				}
-				reg.OffEvent("x", c18ev[4+o]) // whether it ran or is still pending: removed before the next burst
+				reg.OffEvent("x", c18evF()[4+o]) // whether it ran or is still pending: removed before the next burst
 			}
 			lo, hi := c.K*ons, c.K*ons
 			if midOn {
